@@ -37,7 +37,7 @@ public:
   virtual ~NULLExpression() { }
 
   NULLExpression() : BuiltinExpression(FUNC_NIL)
-  , v(Value::type_no_type) { }
+  , v(Value::type_no_type) { v.to_lvalue(true); }
 
   const Type& type(Context& ctx) const override { return v.type(); }
 
